@@ -154,6 +154,9 @@ class FPTensorVariable: public FPTensor
     virtual Variant value() const {
       Variant v(Variant::TENSOR);
 
+      if(!m_value)
+        throw gError("FPTensorVariable::value()", "ERROR: Tried to return value of my non-initialised tensor_t* m_value = NULL.");
+
       for (int i = 0; i < SPACE_DIMS; ++i)
         for (int j = 0; j < SPACE_DIMS; ++j)
           v.tensor(i, j) = (*m_value)(i, j);
